@@ -44,7 +44,7 @@ RULE = ("histories over %d symbolic operations (append/insert/delete by index an
         "short name lists and DataFrames, each with an untouched partner LASFile. After the last operation of every "
         "exhaustive history and after every operation of a random history all views (curves, keys, values, items, "
         "index, data, [int], [mnemonic]) are compared with the list model. distinct = distinct sequence of "
-        "(operation kind, resolved position) ; non-trivial = history with >= 2 operations that leaves >= 2 curves"
+        "(operation kind, resolved position) ; non-trivial = history with >= 2 operations that leaves >= 2 curves Added later: index together with a mnemonic (update / delete), falsy and numeric curve metadata, names of several shapes, move-to-end and aliasing of arrays, arrays without samples, list / tuple / strided / Fortran-ordered array arguments, numpy-integer positions."
         % len(OPS))
 ASSUMPTIONS = [
     "session names (keys) are predicted by the model with the documented rule: renumbered :1..:n in order after each insertion and after set_data, left alone by deletions and updates",
